@@ -568,7 +568,7 @@ class Gen:
         if big:
             # shapes a small random sample would never contain: many rules, a class of many ranges (more than
             # MAX_GUARD_SIZE: a search table in the lexer's own arms), deep nesting, characters far from ASCII
-            kind_b = r.choice(['many_rules', 'many_ranges', 'deep', 'far_chars'])
+            kind_b = r.choice(['many_rules', 'many_ranges', 'deep', 'far_chars', 'many_chars', 'class_chain', 'literal_alts'])
             self.bump('big_' + kind_b)
             if kind_b == 'many_rules':
                 for i in range(r.randint(10, 16)):
@@ -588,6 +588,35 @@ class Gen:
                 else:
                     big_rules.append({'re': ('plus', cls), 'ctx': None, 'kind': 'simple:90'})
                 big_rules.append({'re': ('cat', ('char', 0x61), ('diff', ('any',), cls)), 'ctx': None, 'kind': 'simple:91'})
+            elif kind_b == 'many_chars':
+                # more than MAX_GUARD_SIZE characters listed one by one, all leading to the same state, and a range
+                # over the same letters leading elsewhere: the character transitions must win
+                cs = [0x61 + 2 * i for i in range(r.randint(10, 12))]
+                big_rules.append({'re': ('cat', ('set', cs), ('char', 0x3d)), 'ctx': None, 'kind': 'simple:98'})
+                big_rules.append({'re': ('set', [(0x61, 0x7a)]), 'ctx': None, 'kind': 'simple:99'})
+                big_rules.append({'re': ('char', 0x3d), 'ctx': None, 'kind': 'simple:89'})
+            elif kind_b == 'class_chain':
+                # a long concatenation of one small class made of a single character and a wider range (at most
+                # MAX_GUARD_SIZE ranges: a guard chain): every state of the chain has one predecessor
+                cls = r.choice([('builtin', 'ascii_whitespace'), ('set', [(0x61, 0x63), 0x78]),
+                                ('diff', ('set', [(0x61, 0x7a)]), ('set', [0x62, 0x64]))])
+                re = cls
+                for _ in range(r.randint(12, 15)):
+                    re = ('cat', re, cls)
+                big_rules.append({'re': re, 'ctx': None, 'kind': 'simple:88'})
+            elif kind_b == 'literal_alts':
+                # a long alternation of character / string literals in which some are prefixes of others, in both orders
+                # (an operator or keyword list); followed by something in a second rule
+                words = [[0x3c], [0x3c, 0x3d], [0x3c, 0x3c], [0x3c, 0x3c, 0x3d], [0x3d], [0x3d, 0x3d], [0x69, 0x6e], [0x69, 0x6e, 0x74],
+                         [0x69], [0x61, 0x62], [0x61, 0x62, 0x63], [0x2b]]
+                r.shuffle(words)
+                words = words[:r.randint(8, 12)]
+                lit = lambda w: ('char', w[0]) if len(w) == 1 and r.random() < 0.6 else ('str', list(w))
+                re = lit(words[0])
+                for w in words[1:]:
+                    re = ('or', re, lit(w))
+                big_rules.append({'re': re, 'ctx': None, 'kind': 'simple:86'})
+                big_rules.append({'re': ('cat', re, ('char', 0x21)), 'ctx': None, 'kind': 'simple:87'})
             elif kind_b == 'deep':
                 re = ('char', self.char())
                 for i in range(r.randint(5, 7)):
@@ -655,6 +684,10 @@ class Gen:
                         local_vars.append(v)
                     items.append(('rule', self.rule(local_vars, lenv, True, nrs, fallible)))
                 d.append(('ruleset', nm, items))
+            if shared and r.random() < 0.5:
+                # a top-level binding of the same name declared after the rule sets: it must not reach back into them
+                d.append(('let', 'loc', ('char', 0x7a)))
+                self.bump('late_top_let')
             if r.random() < o.get('p_empty_rs', 0.1):
                 # a rule set without rules, and a way into it: whatever follows must fail there, consume the offending
                 # character and resume in Init
@@ -781,7 +814,7 @@ class Gen:
         alpha = sorted(c for c in alpha if c is not None and 0 <= c <= 0x10FFFF and not (0xD800 <= c <= 0xDFFF))
         if not alpha:
             alpha = [0x61]
-        others = [0x78, 0x20]
+        others = [0x78, 0x20, 0x85, 0x0]        # a C1 control and NUL: characters without a display width of their own
         if self.o['wide']:
             others += [0x0a, 0x09, 0xe9, 0x4e2d, 0x1f600, 0x301, 0x200b]
             others += self.width_boundary_chars(8)
@@ -853,7 +886,7 @@ class Gen:
                 s = [0xFEFF] + s            # a byte order mark is a character like any other
             if self.o['wide'] and r.random() < 0.5 and s:
                 pos = r.randrange(len(s) + 1)
-                s = s[:pos] + [r.choice([0x0a, 0x09, 0xe9, 0x4e2d, 0x1f600, 0x301] + others[9:])] + s[pos:]
+                s = s[:pos] + [r.choice([0x0a, 0x09, 0xe9, 0x4e2d, 0x1f600, 0x301] + others[11:])] + s[pos:]
             key = tuple(s)
             if key in seen:
                 continue
